@@ -19,6 +19,15 @@ CONSTANTS
     MinUnitSto = 5
     MaxUnitSto = 1048576
     MaxGroupSto = 1048576
+    MinUnitCPUB = 524288
+    MaxUnitCPUB = 524288
+    MaxGroupCPUB = 524288
+    MinUnitMemB = 524288
+    MaxUnitMemB = 524288
+    MaxGroupMemB = 524288
+    MinUnitStoB = 524288
+    MaxUnitStoB = 524288
+    MaxGroupStoB = 524288
     MinUnitCount = 1
     MaxUnitCount = 50
     MinUnitPrice = 1
